@@ -57,6 +57,10 @@ def extra(report, env):
     for n in documented:
         res.append(('registry.%s' % n, n in names, 'documented but not registered'))
     res.extend(registration_decorator_obligations(env['repo']))
+    # a custom function may itself evaluate a formula on the same parser: the call sites after it in the outer formula are still reached
+    # exactly because the token stream of each evaluation is private (PLY's assumed contract: the lexer handed over is a per-call clone)
+    from props.C03 import ply_call_obligations
+    res.extend(('assumption.' + n, ok, d) for n, ok, d in ply_call_obligations(env['repo']))
     table_obligations(report, 'C09', res)
     # per-instance tables are created fresh in __init__ (shared with C03): a shared table would make names of one parser resolve on another
     from props.C03 import init_obligations
@@ -176,6 +180,29 @@ def extra(report, env):
         r = (e2e.new_parser() if text[0].islower() or text[1].islower() else pc).parse(text)
         if r['error'] != '#NAME?' and len(fails) < 5:
             fails.append({'formula': text, 'detail': 'no function is registered under this spelling: expected #NAME?, got %r' % (r,)})
+    pe = e2e.new_parser()
+    pe.set_variable('x', 7)
+    elog = []
+    pe.set_function('EVAL', lambda text: pe.parse(text)['result'])
+    pe.set_function('G', lambda *a: elog.append(a) or sum(v for v in a if isinstance(v, (int, float))))
+    for text, want, ncalls in (('EVAL("x")+1', 8, 0), ('G(EVAL("x+1"),5)+G(2)', 15, 2), ('G(1)+EVAL("G(2)")+G(3)', 6, 3)):
+        del elog[:]
+        cases += 1
+        r = pe.parse(text)
+        if (r != {'result': want, 'error': None} or len(elog) != ncalls) and len(fails) < 5:
+            fails.append({'formula': text, 'detail': 'a custom function that evaluates on the same parser: expected %r with %d calls of G, got %r with calls %r' % (want, ncalls, r, elog)})
+    # a registered callable is the function of that name whatever else it is (an object with __len__ 0, an empty callable dict subclass ...)
+    class Memo(dict):
+        def __call__(self, *a):
+            return 'memo called'
+    pf = e2e.new_parser()
+    pf.set_function('MEMO', Memo())
+    pf.set_function('SUM', Memo())
+    for text in ('MEMO(1)', 'SUM(1,2)'):
+        cases += 1
+        r = pf.parse(text)
+        if r != {'result': 'memo called', 'error': None} and len(fails) < 5:
+            fails.append({'formula': text, 'detail': 'registered callable that happens to be falsy (an empty dict subclass with __call__): got %r' % (r,)})
     p.set_function('IFERROR', lambda a, b: 'mine')
     cases += 1
     r = p.parse('IFERROR(1/0,2)')
